@@ -284,11 +284,12 @@ static std::vector<Spec> build() {
         case 4: e.ld = [](const long double *a) { return masa_eval_source_nu<long double> A3; }; e.d = [](const double *a) { return masa_eval_source_nu<double> A3; }; break; }
       s.evals.push_back(e); }
     s.evals.push_back(EV("exact_nu", 1, masa_eval_exact_nu, A3, return FreeShear::field(p, x, 4);));
-    // two-argument fields are the t = 0 fields
-    s.evals.push_back(EV("exact_rho(x,y)", 1, masa_eval_exact_rho, A2, Q y[3] = {x[0], x[1], Q(0)}; return FreeShear::field(p, y, 0);));
-    s.evals.push_back(EV("exact_u(x,y)", 1, masa_eval_exact_u, A2, Q y[3] = {x[0], x[1], Q(0)}; return FreeShear::field(p, y, 1);));
-    s.evals.push_back(EV("exact_v(x,y)", 1, masa_eval_exact_v, A2, Q y[3] = {x[0], x[1], Q(0)}; return FreeShear::field(p, y, 2);));
-    s.evals.push_back(EV("exact_p(x,y)", 1, masa_eval_exact_p, A2, Q y[3] = {x[0], x[1], Q(0)}; return FreeShear::field(p, y, 3);));
+    // two-argument fields: the API returns the t-independent (spatial) part of u, v, p, rho -- as for Burgers -- and nu at t = 0
+    auto spatial = [](const PM &p, const Q *x, int which) { PM q = p; for (const char *n : {"u_t", "v_t", "p_t", "rho_t"}) q[n] = Q(0); Q y[3] = {x[0], x[1], Q(0)}; return FreeShear::field(q, y, which); };
+    s.evals.push_back(EV("exact_rho(x,y)", 1, masa_eval_exact_rho, A2, return spatial(p, x, 0);));
+    s.evals.push_back(EV("exact_u(x,y)", 1, masa_eval_exact_u, A2, return spatial(p, x, 1);));
+    s.evals.push_back(EV("exact_v(x,y)", 1, masa_eval_exact_v, A2, return spatial(p, x, 2);));
+    s.evals.push_back(EV("exact_p(x,y)", 1, masa_eval_exact_p, A2, return spatial(p, x, 3);));
     s.evals.push_back(EV("exact_nu(x,y)", 1, masa_eval_exact_nu, A2, Q y[3] = {x[0], x[1], Q(0)}; return FreeShear::field(p, y, 4);));
     // relation: steady two-argument sources equal the three-argument ones at t = 0, bit for bit
     s.relations = [](const NumCase &c, const PM &, std::vector<Outcome> &out, double) {
